@@ -400,7 +400,9 @@ def continuity_check(chunk_iter):
 
         last_end = chunk.end
         last_runid = chunk.run_id
-        last_subrun = chunk.last_subrun
+        if chunk.last_subrun is not None:
+            # An empty zero-duration chunk of a superrun carries no subruns
+            last_subrun = chunk.last_subrun
 
 
 @export
